@@ -34,7 +34,8 @@ EXTENDS Integers, Sequences, FiniteSets, TLC
 CONSTANTS Variant          \* "faithful" | "equality" (compare meanings, not objects) | "declfirst" (_declare before _add_constants)
                            \* broken variants that TLC must reject:
                            \* "override-consts" (override also replaces constants), "nostop" (call continues after a failing item),
-                           \* "override-sticky" (conflict without override still stores)
+                           \* "override-sticky" (conflict without override still stores),
+                           \* "include-copies" (include() re-creates the objects), "include-overrides" (include() replaces bindings)
 
 Types == {"int", "long", "int *", "int[3]"}
 Sigs  == {"int(*)(int)", "long(*)(void)"}
@@ -70,7 +71,9 @@ Obj(it, next) ==
     [] it[1] = "macrodots"          -> <<"fresh", next>>
 
 \* machine state: s = [decl : key -> [obj, desc, quals], ints : name -> value, next : Nat]
-S0 == [decl |-> EmptyFn, ints |-> EmptyFn, next |-> 1]
+\*   plus order / iorder: insertion order of the two dicts (what a later ffi.include() iterates over)
+S0 == [decl |-> EmptyFn, ints |-> EmptyFn, next |-> 1, order |-> <<>>, iorder |-> <<>>]
+S0At(n) == [S0 EXCEPT !.next = n]        \* a second FFI: its fresh objects are distinct from the first one's
 
 Ok(s)      == [s |-> s, err |-> ""]
 Fail(s, e) == [s |-> s, err |-> e]
@@ -80,7 +83,8 @@ Same(prev, obj, desc, quals) ==
   ELSE prev.obj = obj /\ prev.quals = quals
 
 Declare(s, key, obj, desc, quals, override) ==
-  LET stored == [s EXCEPT !.decl = Put(s.decl, key, [obj |-> obj, desc |-> desc, quals |-> quals])] IN
+  LET stored == [s EXCEPT !.decl = Put(s.decl, key, [obj |-> obj, desc |-> desc, quals |-> quals]),
+                          !.order = IF key \in DOMAIN s.decl THEN s.order ELSE Append(s.order, key)] IN
   IF key \in DOMAIN s.decl
   THEN IF Same(s.decl[key], obj, desc, quals) THEN Ok(s)
        ELSE IF ~override
@@ -93,7 +97,7 @@ AddConst(s, n, v, override) ==
   THEN IF s.ints[n] = v THEN Ok(s)
        ELSE IF Variant = "override-consts" /\ override THEN Ok([s EXCEPT !.ints = Put(s.ints, n, v)])
        ELSE Fail(s, "const")
-  ELSE Ok([s EXCEPT !.ints = Put(s.ints, n, v)])
+  ELSE Ok([s EXCEPT !.ints = Put(s.ints, n, v), !.iorder = Append(s.iorder, n)])
 
 Item(s, it, override) ==
   LET obj == Obj(it, s.next)
@@ -127,6 +131,31 @@ Run(s, items, override) ==
 
 Call(s, items, override) == Run(s, Ordered(items), override)
 
+(* ------------------------------------------------------------------ ffi.include()
+   Parser.include(other): every declaration of `other` whose kind is struct/union/enum/anonymous/typedef (of the
+   kinds modelled here: typedef) is passed to _declare with the SAME object (included=True, no override: the
+   options of the last parse() have been restored), in the insertion order of other's dict; then every integer
+   constant goes through _add_constants.  'macro', 'function', 'variable' and 'constant' entries do not travel.
+   The first failure aborts; what was copied before it stays. *)
+IsTypedefKey(k) == Len(k) > 8 /\ SubSeq(k, 1, 8) = "typedef "
+
+RECURSIVE IncDecls(_, _, _)
+IncDecls(b, a, i) ==
+  IF i > Len(a.order) THEN Ok(b)
+  ELSE LET k == a.order[i] IN
+       IF IsTypedefKey(k)
+       THEN LET b1 == IF Variant = "include-copies" THEN [b EXCEPT !.next = b.next + 1] ELSE b
+                obj == IF Variant = "include-copies" THEN <<"fresh", b.next>> ELSE a.decl[k].obj
+                r == Declare(b1, k, obj, a.decl[k].desc, a.decl[k].quals, Variant = "include-overrides") IN
+            IF r.err # "" THEN r ELSE IncDecls(r.s, a, i + 1)
+       ELSE IncDecls(b, a, i + 1)
+RECURSIVE IncInts(_, _, _)
+IncInts(b, a, i) ==
+  IF i > Len(a.iorder) THEN Ok(b)
+  ELSE LET r == AddConst(b, a.iorder[i], a.ints[a.iorder[i]], FALSE) IN
+       IF r.err # "" THEN r ELSE IncInts(r.s, a, i + 1)
+Include(b, a) == LET d == IncDecls(b, a, 1) IN IF d.err # "" THEN d ELSE IncInts(d.s, a, 1)
+
 \* what a user can see of the state (object identities are visible only through later outcomes)
 Proj(s) == [decl |-> [k \in DOMAIN s.decl |-> <<s.decl[k].desc, s.decl[k].quals>>], ints |-> s.ints]
 
@@ -156,4 +185,12 @@ EqualRejected(s, it, override) ==      \* a single item, equal in meaning to wha
   /\ Key(it) \in DOMAIN s.decl /\ s.decl[Key(it)].desc = Desc(it) /\ s.decl[Key(it)].quals = Quals(it)
 LeakOnFailure(s, it, override) ==      \* a failing item changed a table
   LET r == Item(s, it, override) IN r.err # "" /\ Proj(r.s) # Proj(s)
+
+\* laws of include (b: including environment before, a: included one)
+IncludeNeverOverrides(b, a) == LET r == Include(b, a) IN BindImmutableStep(b, r.s, FALSE) /\ IntsImmutableStep(b, r.s)
+IncludeShares(b, a) == LET r == Include(b, a) IN
+  r.err = "" => /\ \A k \in DOMAIN a.decl : IsTypedefKey(k) => (k \in DOMAIN r.s.decl /\ r.s.decl[k].obj = a.decl[k].obj)
+                /\ \A n \in DOMAIN a.ints : n \in DOMAIN r.s.ints /\ r.s.ints[n] = a.ints[n]
+IncludeIdempotent(b, a) == LET r == Include(b, a) IN
+  r.err = "" => LET r2 == Include(r.s, a) IN r2.err = "" /\ r2.s = r.s
 =============================================================================
